@@ -25,21 +25,21 @@ _COMMON = " Exhaustive over every instance re-discovered from /repo's current tr
 
 PROPS: dict[str, dict] = {
     "C01": _p("static analysis: sibling agreement of the three depth walkers (signature start+1*k), doc/table agreement, operator table at the threshold site, grammar-vocabulary check of node-kind literals",
-              "Rules N1-N5 over 3 walkers, 3 construct tables, 3 threshold sites, the Python child traversal and every node-kind literal of the nesting package." + _COMMON, "DESIGN.md 4 C01"),
+              "Rules N1-N7 over 3 walkers, 3 construct tables, 3 threshold sites, the Python child traversal, the sibling early-exit guards and every node-kind literal of the nesting package." + _COMMON, "DESIGN.md 4 C01"),
     "C02": _p("static analysis: path dominance of the allow-list test over violation construction (CFG + helper implication summaries), admission-predicate rule, handler discipline, exemption reachability in the call graph",
-              "Rules M1-M4, M6-M11 over the three language branches of the magic-number rule (allow-list dominance, admission, handlers, exemption reachability, traversal completeness, radix literals, config memoisation, ancestor-walk completeness, sibling UPPER_CASE predicates)." + _COMMON, "DESIGN.md 4 C02"),
+              "Rules M1-M4, M6-M12 over the three language branches of the magic-number rule (allow-list dominance, admission, handlers, exemption reachability, traversal completeness, radix literals, config memoisation, ancestor-walk completeness, sibling UPPER_CASE predicates, twin bounds tests)." + _COMMON, "DESIGN.md 4 C02"),
     "C03": _p("static analysis: writer/reader template agreement, same-list rule, SQL text rules, hash-input rule",
-              "Narrow claim: rules D1-D5 decide the message codec, list identity, the duplicate/ordering SQL, the hash input/normaliser order and the window arithmetic; soundness/completeness of duplicate detection itself is not decided." + _COMMON, "DESIGN.md 4 C03"),
+              "Narrow claim: rules D1-D7 decide the message codec, list identity, the duplicate/ordering SQL, the hash input/normaliser order, the window arithmetic, the overlap predicates and the sync/async method finders; soundness/completeness of duplicate detection itself is not decided." + _COMMON, "DESIGN.md 4 C03"),
     "C04": _p("static analysis: call-graph reachability of the ignore gate per rule and language branch, site-level gate-flow (path-sensitive value flow of constructed Violations through gate idioms), marker/regex sibling matrices, line-model def-use, scope coverage on CFG paths",
               "Rules I1(T1,T2,T3), I2-I8 over 20 rule classes, 49 violation construction sites, 5 marker recognisers, 6 directive regexes and every line-list lookup." + _COMMON, "DESIGN.md 4 C04"),
     "C05": _p("static analysis: key provenance (documented section names vs metadata keys read), enabled-gate dominance with helper implication summaries, option wiring doc->from_dict->field->read, exception-path analysis to exit 2, CLI override level coverage, carrier/normalisation rules, threshold operator table",
-              "Rules K1, K3, K4, K6-K12 over 20 rule classes, 16 config classes (~110 documented options), 7 override helpers and all config readers." + _COMMON, "DESIGN.md 4 C05"),
+              "Rules K1, K3, K4, K6-K12, K14 over 20 rule classes, 16 config classes (~110 documented options), 7 override helpers and all config readers." + _COMMON, "DESIGN.md 4 C05"),
     "C06": _p("static analysis: sibling agreement of the 19 command tails, exit-constant and handler rules, renderer iteration rules, constant-bound analysis of line/column arguments, static type of file_path from mypy",
-              "Rules X1-X6 over 20 commands, 3 renderers and 49 construction sites." + _COMMON, "DESIGN.md 4 C06"),
+              "Rules X1-X7 over 20 commands, 3 renderers and 49 construction sites." + _COMMON, "DESIGN.md 4 C06"),
     "C07": _p("static analysis: typestate/instance pairing of check() and finalize() on the parallel path, codec table agreement, future-consumption shape, handler discipline of the worker",
               "Narrow claim: rules P1-P5 (P5: work items forward path, root and config unchanged); completion order and partitioning are not decided." + _COMMON, "DESIGN.md 4 C07"),
     "C08": _p("static analysis: typestate of rule state (written under check vs reset on every finalize path), finalize pairing of lint_file callers, hash-value use rule, who-may-write reachability over the call graph with positive control, metadata key provenance",
-              "Rules S1-S10 over 2 stateful rules, all lint_file callers, all hash() sites, every function reachable from the lint entry points, ~45 long-lived helper classes (accumulating attributes, content memos), all module-level names of src (run-time mutation), functools caches and the SQL of the two stores." + _COMMON, "DESIGN.md 4 C08"),
+              "Rules S1-S11 over 2 stateful rules, all lint_file callers, all hash() sites, every function reachable from the lint entry points, ~45 long-lived helper classes (accumulating attributes, content memos), all module-level names of src (run-time mutation), functools caches and the SQL of the two stores." + _COMMON, "DESIGN.md 4 C08"),
     "C09": _p("static analysis: who-may-call rule for cwd-rooted parser acquisition, path-predicate provenance (relative_to before directory-component predicates)",
               "Rules Q1-Q4 over 14 parser acquisitions and 21 path-predicate functions." + _COMMON, "DESIGN.md 4 C09"),
     "C10": _p("static analysis: sibling agreement of the library and CLI entry points over resolved orchestrator callees and their finalize behaviour",
@@ -47,23 +47,23 @@ PROPS: dict[str, dict] = {
     "C11": _p("static analysis: ValueError-escape rule over resolved callees with enumerated safe idioms, SyntaxError handler rule, frozen swallow table, unbounded-recursion walker detection, read-handler rule, regex-AST ambiguity analysis, mypy Optional diagnostics",
               "Rules E1-E10 over every function reachable from a rule (~900), the 67 regular expressions of src (E5: ambiguity degree from the regex AST), mypy's None/Optional diagnostics (E8), the SQL insert sites of the two stores (E9) and the magic-number message builders (E10)." + _COMMON, "DESIGN.md 4 C11"),
     "C12": _p("static analysis: dimension (unit) analysis of line/column values - backwards inter-procedural tracing through parameters, dataclass fields, dict keys, tuple positions and returns to parser sources",
-              "Rules B1-B6 over 49 construction sites and every call that passes a node position (B5 same-node line/column, B6 no parent line for a part); sinks whose sources cannot be followed are counted as undecided (frozen maximum), never as violations." + _COMMON, "DESIGN.md 4 C12"),
+              "Rules B1-B7 over 49 construction sites and every call that passes a node position (B5 same-node line/column, B6 no parent line for a part, B7 record line of class-level findings); sinks whose sources cannot be followed are counted as undecided (frozen maximum), never as violations." + _COMMON, "DESIGN.md 4 C12"),
     "C13": _p("static analysis: line-model def-use rule (splitlines vs parser newline model)",
-              "Narrow claim: only the line-model and lookup-arithmetic clauses (L1-L5) of the edit-invariance property is decided; all relations between two runs over program pairs are out of reach of a static argument." + _COMMON, "DESIGN.md 4 C13"),
+              "Narrow claim: only the line-model and lookup-arithmetic clauses (L1-L6; L6 = no tree-sitter byte offset applied to a str) of the edit-invariance property are decided; all relations between two runs over program pairs are out of reach of a static argument." + _COMMON, "DESIGN.md 4 C13"),
     "C14": _p("static analysis: must-pass-through (gate dominance) on lint_file paths, who-may-call on the rule-execution chain, table agreement, walk-shape rule",
               "Rules W1-W5 over lint_file's CFG paths, the rule-execution call chain, the exclusion tables and the os.walk loop." + _COMMON, "DESIGN.md 4 C14"),
     "C15": _p("static analysis: constant propagation of emitted rule ids x command filter predicates (table evaluation), export/constructibility rules, language-guard dominance, section-key disjointness",
-              "Rules U1-U6 over 20 commands x 37 emitted ids, 20 rule classes, the language detector and the shared parse helpers." + _COMMON, "DESIGN.md 4 C15"),
+              "Rules U1-U7 over 20 commands x 37 emitted ids, 20 rule classes, the language detector and the shared parse helpers." + _COMMON, "DESIGN.md 4 C15"),
     "C16": _p("static analysis: operator table at the SRP threshold site, branch symmetry of from_dict, sibling record tables, public-method feature matrix",
-              "Rules T1-T4, T6-T10 over the evaluator, the config class, three analyzers and three method predicates." + _COMMON, "DESIGN.md 4 C16"),
+              "Rules T1-T4, T6-T11 over the evaluator, the config class, three analyzers and three method predicates." + _COMMON, "DESIGN.md 4 C16"),
     "C17": _p("static analysis: registry exhaustiveness (classifier strings = builder table = config-key table = config fields), sibling predicate agreement, grammar vocabulary",
-              "Rules R1-R7 over the three Rust linters and every Rust node-kind literal." + _COMMON, "DESIGN.md 4 C17"),
+              "Rules R1-R8 over the three Rust linters and every Rust node-kind literal." + _COMMON, "DESIGN.md 4 C17"),
     "C18": _p("static analysis: must-precede/short-circuit on CFG paths, control dependence of the global checks, consumed-vs-validated table agreement, exception-path analysis, prefix-boundary and path-relativisation rules",
-              "Rules V1-V7 over the rule checker, matcher, validator and path resolver." + _COMMON, "DESIGN.md 4 C18"),
+              "Rules V1-V8 over the rule checker, matcher, validator and path resolver." + _COMMON, "DESIGN.md 4 C18"),
     "C19": _p("static analysis: doc<->code table agreement (rule ids, supported languages), grammar vocabulary of the TypeScript analyzers",
               "Narrow claim: rules Y1-Y4 decide necessary conditions for a documented example to be reportable at all; whether an example is detected where embedded is behaviour over programs and not decided." + _COMMON, "DESIGN.md 4 C19"),
     "C20": _p("static analysis: table agreement (template sections, placeholders, presets, choices), key-normalisation rule, validate-before-write dominance on CFG paths",
-              "Rules G1-G8 over the merge helpers (sections, key spellings, insert position, line break), the template, the preset table, the validators and the three writing commands." + _COMMON, "DESIGN.md 4 C20"),
+              "Rules G1-G9 over the merge helpers (sections, key spellings, insert position, line break), the load/store path and parser agreement, the template, the preset table, the validators and the three writing commands." + _COMMON, "DESIGN.md 4 C20"),
 }
 
 NOT_BUILT_REASON = "check not built yet in this commit (static rules designed in DESIGN.md §4; see git log for progress)"
